@@ -160,6 +160,9 @@ static pid_t process_fork(const int *except, size_t num_except)
 
   r = pipe_init(&pipe.read, &pipe.write);
   if (r < 0) {
+    int q = signal_mask(SIG_SETMASK, &mask.old, NULL);
+    ASSERT_UNUSED(q == 0);
+
     return r;
   }
 
